@@ -498,26 +498,50 @@ def r10_5(ctx):
         if not f.file.startswith('libyara/') and not ctx.fixture:
             continue
         k = {}
+        # (field, factors of the size, call node to report, verb): direct memset/memcpy of a
+        # per-rule-set field, and calls of a static helper that does it to the pointer it is
+        # handed (`clear_bitmask(scanner->flags, n)`), with the arguments substituted
+        resets = []
         for c in f.calls():
-            if c.get('callee') not in ('memset', 'memcpy', 'memmove'):
+            if c.get('callee') in ('memset', 'memcpy', 'memmove'):
+                a = f.call_args(c)
+                d = cu.strip_casts(f, a[0])
+                if d is not None and d['k'] == 'member' and d.get('rec') in ('YR_SCAN_CONTEXT', 'YR_SCANNER') \
+                        and d['fld'] in extents:
+                    resets.append((d['fld'], sorted(_factors(f, a[2])), c, c['callee']))
                 continue
-            a = f.call_args(c)
-            d = cu.strip_casts(f, a[0])
-            if d is None or d['k'] != 'member' or d.get('rec') not in ('YR_SCAN_CONTEXT', 'YR_SCANNER') \
-                    or d['fld'] not in extents:
+            h = f.tu.functions.get(c.get('callee') or '')
+            if h is None or h is f or not getattr(h, 'static', False):
                 continue
+            args = f.call_args(c)
+            if len(args) != len(h.params):
+                continue
+            hp = [p_['name'] for p_ in h.params]
+            for hc in h.calls():
+                if hc.get('callee') not in ('memset', 'memcpy', 'memmove'):
+                    continue
+                ha = h.call_args(hc)
+                hd = cu.strip_casts(h, ha[0])
+                if hd is None or hd['k'] != 'ref' or hd['name'] not in hp:
+                    continue
+                d = cu.strip_casts(f, args[hp.index(hd['name'])])
+                if d is None or d['k'] != 'member' or d.get('rec') not in ('YR_SCAN_CONTEXT', 'YR_SCANNER') \
+                        or d['fld'] not in extents:
+                    continue
+                sub = {p_: _factors(f, a_) for p_, a_ in zip(hp, args)}
+                resets.append((d['fld'], sorted(_factors(h, ha[2], sub)), c, hc['callee']))
+        for fld, got, c, callee in resets:
             n_sites += 1
-            got = sorted(_factors(f, a[2]))
-            want, af, an = extents[d['fld']]
-            idx = k.get(d['fld'], 0)
-            k[d['fld']] = idx + 1
+            want, af, an = extents[fld]
+            idx = k.get(fld, 0)
+            k[fld] = idx + 1
             ok = got == want
-            verb = 'cleared' if c['callee'] == 'memset' else 'filled'
-            ctx.ob('R10.5', '%s:%s#%d:reset-covers-allocation' % (f.name, d['fld'], idx), ok, f.loc(c),
+            verb = 'cleared' if callee == 'memset' else 'filled'
+            ctx.ob('R10.5', '%s:%s#%d:reset-covers-allocation' % (f.name, fld, idx), ok, f.loc(c),
                    '%s over %s = the allocated extent' % (verb, ' * '.join(got)) if ok else
                    '%s is allocated with %s (at %s) but %s over %s: part of it keeps the state of '
                    'the previous scan (or the write runs past the allocation)' % (
-                       d['fld'], ' * '.join(want), af.loc(an), verb, ' * '.join(got)))
+                       fld, ' * '.join(want), af.loc(an), verb, ' * '.join(got)))
     ctx.count('sized_resets', n_sites)
 
 
